@@ -7,7 +7,7 @@
     with the implementation on every run of the C01/C07 checks.  How the unlimited IR run relates
     to the canonical run is C01 (theorem for level 0, validation per program above). *)
 From Coq Require Import ZArith List Bool Lia.
-From HPBF Require Import Cell IO BF Expr IR BC Level0Proofs LimitedProofs BCProofs.
+From HPBF Require Import Cell IO BF Expr IR BC Level0Proofs LimitedProofs BCProofs X86Mov X86MovProofs.
 Import ListNotations.
 Open Scope Z_scope.
 
@@ -89,6 +89,14 @@ Proof.
     destruct H as [_ [l X]]. exists (rev l). unfold events. cbn [outcome_state]. rewrite X, rev_app_distr. reflexivity.
 Qed.
 
+(** ** baseline JIT: the budget check emitted before every branch in limited mode takes the same
+    decision as the bytecode model's [bc_limit 1] — out through the termination path iff the budget
+    is at most 1, otherwise the budget is decremented (64-bit unsigned comparison) *)
+Theorem C07_jit_limit_template : forall code st, limit_ok code = true -> 0 <= l_budget st < 2 ^ 64 ->
+  snd (lrun code st) = (l_budget st <=? 1) /\
+  (snd (lrun code st) = false -> l_budget (fst (lrun code st)) = l_budget st - 1).
+Proof. exact limit_ok_sound. Qed.
+
 (** non-vacuity:  +[>+.<]  style loop ( cell0 := 3; while cell0 { cell1 += 1; out cell1; cell0 -= 1 } )
     interrupted by budget 1, finished by budget 5 *)
 Definition demo : list instr :=
@@ -108,3 +116,4 @@ Print Assumptions C07_ir_interrupted_is_prefix.
 Print Assumptions C07_ir_returns.
 Print Assumptions C07_ir_large_budget.
 Print Assumptions C07_bc_limited_is_prefix.
+Print Assumptions C07_jit_limit_template.
